@@ -29,6 +29,7 @@ class Acc:
         self.outcomes = {}     # job -> list of distinct outcome strings of the exploration
         self.exists = {}       # job -> mask of existential facts reached by some execution
         self.incomplete = []   # names of bounds that were not completed (deadline / cap)
+        self.engine_errors = []  # jobs that failed for an engine reason (capacity, time limit): fatal (exit 2) unless another job of the run found a new violation
 
     def add_stat(self, k, v):
         if k.startswith("max_"):
@@ -93,7 +94,8 @@ def run_harness(exe, args, acc, job, timeout=600, env=None, cwd=None, crash_prop
         acc.merge_lines(lines, job)
         acc.jobs.append(dict(job=job, rc=rc, wall_s=round(time.time() - t0, 2)))
         if rc == "timeout":
-            raise EngineError("harness job %s exceeded its %ss limit (engine problem, not a verdict)" % (job, timeout))
+            acc.engine_errors.append("harness job %s exceeded its %ss limit (engine problem, not a verdict)" % (job, timeout))
+            return
         if rc not in ok_codes and rc != 1:
             prog = ""
             try:
@@ -102,7 +104,8 @@ def run_harness(exe, args, acc, job, timeout=600, env=None, cwd=None, crash_prop
                 pass
             tail = open(logp, "rb").read()[-3000:].decode("utf-8", "replace")
             if rc == 2 or crash_prop is None:
-                raise EngineError("harness job %s failed rc=%s\nprogress: %s\nlog tail:\n%s" % (job, rc, prog[:500], tail))
+                acc.engine_errors.append("harness job %s failed rc=%s\nprogress: %s\nlog tail:\n%s" % (job, rc, prog[:500], tail))
+                return
             what = "signal %d" % (-rc) if isinstance(rc, int) and rc < 0 else "exit %s" % rc
             kind = "crash"
             if "AddressSanitizer" in tail:
@@ -187,6 +190,12 @@ def finish(prop, tier, level, acc, coverage, assumptions, t0, extra=None):
             new.append(v)
     for sig, (k, vs) in sorted(matched.items()):
         print("KNOWN-FINDING: property=%s %s (sig=%s, %d occurrence(s) in this run)" % (prop, k["text"], sig, len(vs)))
+    if acc.engine_errors and not new:
+        # a job that could not finish for a reason of the machinery: no verdict (exit 2) - unless the jobs that did finish already found a violation,
+        # which stands on its own (its schedule / history has been replayed)
+        raise EngineError(acc.engine_errors[0] + ("\n(+ %d more job(s))" % (len(acc.engine_errors) - 1) if len(acc.engine_errors) > 1 else ""))
+    for m in acc.engine_errors[:3]:
+        print("note: a job ended with an engine error next to the violation(s) reported below: %s" % m.splitlines()[0][:200])
     rc = 0
     if new:
         rc = 1
